@@ -78,6 +78,14 @@ the map of the pinned tree lacks (such a drawing raises `UnknownTranslator`) -/
 def namedClassesTranslated : Bool :=
   Gen.elemClasses.all fun c => !c.named || c.cls == "Admittance" || (Gen.translatorMap.lookup c.cls).isSome
 
+/-- a sine-referenced phase is shifted by 90 when the phase is given in degrees (`deg`), by π/2
+otherwise: every class with a `sin` shift has the degree alternative -/
+def sinShiftInDegrees : Bool :=
+  Gen.elemClasses.all fun c =>
+    match c.sinShift with
+    | none => true
+    | some (_, _, alt) => alt == some ("deg", 90)
+
 def translatorMapKeysDistinct : Bool := (Gen.translatorMap.map (·.1)).Nodup
 
 /-! ### `toSet` -/
